@@ -23,6 +23,7 @@ EXPLANATION = (
     "for arbitrary detached subgraphs (creator/dependency cycles are documented survivors). "
     'Also: the directory pruning worklist examines every popped entry (no skip), and File.initialize_row keeps a former output known as an output until cleanup has decided about it.'
     ' R-C07-7 every optional_step row is reset like a rerun, after the output reset and before the scratch table is dropped; R-C07-8 queued paths are really removed; R-C07-9 outputs of every completed run are recorded.'
+    ' R-C07-11 the declared-again mechanism (R-C12-10): what a replaced command wrote, amended outputs included, is looked up including detached nodes, hashed and recorded before the restart.'
 )
 ASSUMPTIONS = ["completeness for every detached subgraph shape is a run-time property and is not claimed"]
 
@@ -203,7 +204,7 @@ def rule_outputs_recorded(ctx):
 
 
 RULES = [
-    Rule("R-C07-11", "what a command wrote is hashed and recorded when its step is declared again while it runs (the re-creation detaches outputs the new declaration lacks; without a hash the cleanup forgets them)", C12.rule_redeclared_running_step, min_instances=22),
+    Rule("R-C07-11", "what a command wrote is hashed and recorded when its step is declared again while it runs (the re-creation detaches outputs the new declaration lacks; without a hash the cleanup forgets them)", C12.rule_redeclared_running_step, min_instances=24),
     Rule("R-C07-9", "outputs of every completed run are recorded", rule_outputs_recorded, min_instances=1),
     Rule("R-C07-10", "the need of an optional step follows its attached consumers (which steps are reverted)", C11.rule_read_set, min_instances=10),
     Rule("R-C07-8", "queued paths are really removed", rule_cleanup_wiring, min_instances=4),
@@ -238,7 +239,7 @@ MUTANTS = [
 ]
 
 # the declared-again mechanism is shared with C12 (R-C12-10): its mutants are replayed for this property's copy of the rule
-MUTANTS += [Mutant("shared-" + m.name, m.file, m.transform, ("R-C07-11",), m.note) for m in C12.MUTANTS if m.name in ['replaced-command-outputs-forgotten', 'dropped-run-outputs-looked-up-attached-only', 'replaced-command-outputs-looked-up-attached-only', 'dropped-run-outputs-recorded-as-succeeded']]
+MUTANTS += [Mutant("shared-" + m.name, m.file, m.transform, ("R-C07-11",), m.note) for m in C12.MUTANTS if m.name in ['replaced-command-outputs-forgotten', 'raw-outputs-request-not-forwarded', 'raw-request-still-filtered', 'dropped-run-outputs-looked-up-attached-only', 'replaced-command-outputs-looked-up-attached-only', 'dropped-run-outputs-recorded-as-succeeded']]
 
 VARIANTS = [
     Variant("loop-flag-rename", "trellis.py", in_function("Trellis.delete_detached", lambda s: s.replace("cleaned_some", "progress") if "cleaned_some" in s else None)),
